@@ -185,7 +185,7 @@ def drive(ctx, strategy, body, max_examples, shrink=True, tag="", count=True):
         if isinstance(e, (KeyboardInterrupt, SystemExit)):
             raise
         lv = ctx._last_violation
-        if lv is not None and _caused_by_violation(e):
+        if lv is not None and (_caused_by_violation(e) or _is_flaky(e)):
             ctx.record_violation(lv)
         else:
             raise
@@ -215,10 +215,20 @@ def collecting(ctx):
     except BaseException as e:
         if isinstance(e, (KeyboardInterrupt, SystemExit)):
             raise
-        if ctx._last_violation is not None and _caused_by_violation(e):
+        if ctx._last_violation is not None and (_caused_by_violation(e) or _is_flaky(e)):
             ctx.record_violation(ctx._last_violation)
         else:
             raise
+
+
+def _is_flaky(e):
+    """Hypothesis found that an example behaved differently when run again (Flaky, FlakyFailure, FlakyStrategyDefinition): with an oracle
+    Violation on record that is what a defect looks like whose state outlives one example"""
+    try:
+        from hypothesis.errors import Flaky
+    except Exception:
+        return False
+    return isinstance(e, Flaky)
 
 
 @contextlib.contextmanager
